@@ -22,16 +22,45 @@ func (m *Model) anchorSelfLoopPre() *ssa.Function {
 		return nil
 	}
 	var out *ssa.Function
-	for _, s := range staticCalls(layout, func(c *ssa.Function) bool {
-		res := c.Signature.Results()
-		if res.Len() != 1 || !inModule(c) {
-			return false
+	for _, f := range m.layoutFamily() {
+		for _, s := range staticCalls(f, func(c *ssa.Function) bool {
+			res := c.Signature.Results()
+			if res.Len() != 1 || !inModule(c) || pkgPathOf(c) == pkgPathOf(layout) {
+				return false
+			}
+			sig, ok := res.At(0).Type().Underlying().(*types.Signature)
+			return ok && sig.Params().Len() == 1 && namedKey(sig.Params().At(0).Type()) == igDG
+		}) {
+			out = s.Common().StaticCallee()
 		}
-		sig, ok := res.At(0).Type().Underlying().(*types.Signature)
-		return ok && sig.Params().Len() == 1 && namedKey(sig.Params().At(0).Type()) == igDG
-	}) {
-		out = s.Common().StaticCallee()
 	}
+	return out
+}
+
+// layoutFamily: Layout and the functions of its package that it reaches through static calls.
+func (m *Model) layoutFamily() []*ssa.Function {
+	layout := m.SSAFunc("autog", "Layout")
+	if layout == nil {
+		return nil
+	}
+	seen := map[*ssa.Function]bool{}
+	var out []*ssa.Function
+	var visit func(f *ssa.Function)
+	visit = func(f *ssa.Function) {
+		if seen[f] || len(f.Blocks) == 0 {
+			return
+		}
+		seen[f] = true
+		out = append(out, f)
+		eachInstr(f, func(in ssa.Instruction) {
+			if ci, ok := in.(ssa.CallInstruction); ok {
+				if c := ci.Common().StaticCallee(); c != nil && pkgPathOf(c) == pkgPathOf(layout) {
+					visit(c)
+				}
+			}
+		})
+	}
+	visit(layout)
 	return out
 }
 
@@ -43,11 +72,13 @@ func (m *Model) anchorUnreverse() *ssa.Function {
 		return nil
 	}
 	var out *ssa.Function
-	for _, s := range staticCalls(layout, func(c *ssa.Function) bool {
-		e := m.effects[c]
-		return e != nil && inModule(c) && e.Mod[igEdge+".IsReversed"] && c.Signature.Results().Len() == 0 && len(c.Params) == 1 && namedKey(c.Params[0].Type()) == igDG
-	}) {
-		out = s.Common().StaticCallee()
+	for _, f := range m.layoutFamily() {
+		for _, s := range staticCalls(f, func(c *ssa.Function) bool {
+			e := m.effects[c]
+			return e != nil && inModule(c) && pkgPathOf(c) != pkgPathOf(layout) && e.Mod[igEdge+".IsReversed"] && c.Signature.Results().Len() == 0 && len(c.Params) == 1 && namedKey(c.Params[0].Type()) == igDG
+		}) {
+			out = s.Common().StaticCallee()
+		}
 	}
 	return out
 }
